@@ -59,6 +59,11 @@ def oracle(ctx, c):
 W_ATTRS = {"fb": [("a", "int32", (2,)), ("b", "float32", (3,)), ("c", "uint8", ())],
            "npz": [("a", "int32", (2,)), ("v", "bytes", ()), ("b", "float32", (3,))],
            "tfrec": [("a", "int32", (2,)), ("v", "bytes", ()), ("b", "float32", (3,))]}
+# a second structure with the *same attribute names* declared with the other kind of dtype: one process writes datasets of both
+# structures, one after the other (nothing learnt about an attribute name in one dataset may be applied to the other)
+W_ATTRS2 = {"fb": [("a", "float32", (2,)), ("b", "int32", (3,)), ("c", "uint8", ())],
+            "npz": [("a", "float32", (2,)), ("v", "bytes", ()), ("b", "int32", (3,))],
+            "tfrec": [("a", "float32", (2,)), ("v", "bytes", ()), ("b", "int32", (3,))]}
 
 
 def _value(np, fmt, dtype, shape, kind, payload):
@@ -73,7 +78,7 @@ def _value(np, fmt, dtype, shape, kind, payload):
     if enc_bad:
         # what the format's own encoder refuses: a float64 / text value for an integer attribute, text for a float attribute
         if np.dtype(dtype).kind in "iu":
-            v = np.full(shp, payload + 0.5, dtype=np.float64)
+            v = np.full(shp, payload + 0.5, dtype=np.float64 if payload % 2 == 0 else np.float32)     # (a float32 value is what a float32 attribute of the same name takes)
         else:
             v = np.full(shp, "x" + str(payload), dtype=object) if fmt == "tfrec" else np.full(shp, payload, dtype=np.complex128)
     else:
@@ -95,7 +100,7 @@ def writer_runs(args):
     out = []
     for a in args:
         fmt = a["fmt"]
-        attrs = W_ATTRS[fmt]
+        attrs = (W_ATTRS2 if a.get("aset") else W_ATTRS)[fmt]
         A = [Attribute(name=n, dtype=d, shape=s) for n, d, s in attrs]
         st = DatasetStructure(saved_data_description=A, compression="", examples_per_shard=1000, shard_file_type=fmt)
         root = Path(a["root"]); shutil.rmtree(root, ignore_errors=True); root.mkdir(parents=True)
@@ -170,7 +175,7 @@ def writer_level(ctx):
                         kinds[rng.randrange(k)] = rng.choice(["missing", "shape", "enc"])
                 exs.append(kinds)
             if i % 5 == 0: exs[0][rng.randrange(k)] = rng.choice(["missing", "shape", "enc"])       # the very first call is rejected
-            cases.append({"root": str(ctx.scratch / f"c18w_{fmt}_{i}"), "fmt": fmt, "exs": exs})
+            cases.append({"root": str(ctx.scratch / f"c18w_{fmt}_{i}"), "fmt": fmt, "exs": exs, "aset": i % 2})
     res = child.call("harness.checks.c18", "writer_runs", cases, timeout=900)
     reps = lean.driver([{"m": "writer", "fmt": r["case"]["fmt"], "attrs": r["attrs_variable"], "exs": r["model_exs"]} for r in res])
     corr_bad, kinds_seen = [], collections.Counter()
